@@ -17,7 +17,7 @@ var checks = map[string]func(string) int{
 	"C02": e1.RunC02,
 	"C03": e2.RunC03,
 	"C04": e2.RunC04,
-	"C05": e1.RunC05,
+	"C05": e2.RunC05,
 	"C06": e2.RunC06,
 	"C07": e2.RunC07,
 	"C08": e5.RunC08,
